@@ -173,6 +173,13 @@ def run(ctx, rep, tier):
                 t0 = time.time()
                 # reachability twin: some schedule exists at all
                 r0 = s.check()
+                if r0 == z3.sat and n_traces < 400:
+                    # validate the step model: replay one arbitrary legal schedule on the concrete scheduler
+                    m0 = s.model()
+                    order0 = sorted(pos, key=lambda k_: m0.eval(pos[k_], model_completion=True).as_long())
+                    if simulate(per_thread, order0) is None:
+                        rep.inconclusive.append("a schedule accepted by the encoding violates mutual exclusion when replayed (%r)" % text)
+                    n_traces += 1
                 s.add(torn)
                 r1 = s.check() if r0 == z3.sat else z3.unknown
                 rep.query("%s:%dx%d:%s" % (text, T_, c_, "".join(map(str, ch))), str(r1), time.time() - t0)
